@@ -439,4 +439,8 @@ theorem star_component_captured_cfg (od : Bool) :
   rw [h]
   rfl
 
+/-- … and that name is the empty template's expansion, `""` (a template without references is returned as it is) -/
+theorem star_component_captured_name :
+    (compileTemplate [] 2).format [starB, y] = some [] ∧ expandSpec [starB, y] 0 [] = some [] := by decide
+
 end SE.Props.C12
